@@ -17,6 +17,31 @@ CLAIMED = {
         text="Deductive proof (Verus/Z3, unbounded) on the extracted text of the layout tracker: align_to is the least multiple; Layout::for_size picks the largest dividing power of two; blob/known_type_for_size emit a type of exactly the requested size and alignment; the tracker invariant is preserved by every operation; PLACEMENT THEOREM: in a plain struct the padding returned by saw_field_with_layout puts the next field at the byte offset clang reports; SIZE THEOREM for pad_struct; requires_explicit_align. Found and repaired F2/F4.",
         note="Trusted: Verus/Z3; extraction rules R1-R10; Rust-reference layout rules for emitted type tokens (env); libclang numbers; uninterpreted context reads. Unverified: CompInfo::codegen call order and repr selection, packed/union/bit-field-adjacent placement (invariant+safety only), primitive type mapping, pad_struct sub-region with 8-aligned inexact padding.",
         ref="DESIGN.md §3 C02"),
+    "C04": dict(
+        technique="Kani function contract on the private get_abi (in-crate harness via cfg(kani) hook), full u32 domain",
+        text="Deductive proof (loop-free, every CXCallingConv value) that the calling convention libclang reports is mapped to the Rust ABI the C compiler uses, and to Unknown exactly for unlisted conventions. Only the calling-convention table of C04.",
+        note="Trusted: Kani/CBMC; oracle table from clang-c/Index.h. Unverified (most of C04): mangled names, link_name omission, argument lowering, method wrappers, ABI classification rustc vs clang.",
+        ref="DESIGN.md §3 C04"),
+    "C05": dict(
+        technique="Verus contracts on extracted default_macro_constant_type, IntKind::is_signed, IntKind::known_size",
+        text="Deductive proof for all i64 macro values and both option reads that the integer kind chosen for a macro constant can hold the value with the sign the property demands, is the narrowest such kind under fit-macro-constant-types and 32/64 bits otherwise; IntKind sign/size tables agree with the C model.",
+        note="Trusted: Verus/Z3; extraction rules; widening-conversion specs; C-model table. Unverified: cexpr/libclang evaluation, literal emission in Var::codegen, Enum::codegen repr translation.",
+        ref="DESIGN.md §3 C05"),
+    "C07": dict(
+        technique="Kani (in-crate) lattice-join contracts + Verus contracts on the extracted consider_edge predicates against hand-derived read-sets",
+        text="Deductive proof of two necessary conditions of the least-fixed-point claim: every join the analyses use is the least upper bound of its declared order (all operand pairs), and every edge kind a constrain rule reads along is subscribed by that analysis' dependency predicate (six analyses + the three CannotDerive reader predicates).",
+        note="Narrow. Trusted: read-sets derived by reading each constrain; Kani/Verus. Unverified: constrain bodies on real IR, the worklist driver analyze (closure captures &mut), Trace impls, termination, declaration-order corollary.",
+        ref="DESIGN.md §3 C07"),
+    "C08": dict(
+        technique="Verus contracts on the extracted impl CanDerive* gate bodies + Kani in-crate proofs of the private DeriveTrait rule tables against a property-derived oracle",
+        text="Deductive proof that each CanDerive* query is exactly option && analysis lookup (&& no float for Eq/Ord), and that the per-kind derive rule tables (floats/Hash, pointers+enums/Default, unions only Copy, destructor/Copy, vtable/Default, forward decl, incomplete arrays, vectors/PartialOrd) equal the rules the property lists, for all 5 traits x 17 constructible type kinds; fn-pointer 12-argument rule bounded (0/12/13 args).",
+        note="Trusted: Kani/Verus; oracle tables; T instantiated at ItemId. Unverified: CannotDerive::constrain_type on real IR, derives_of_item, hand-written impl bodies.",
+        ref="DESIGN.md §3 C08"),
+    "C09": dict(
+        technique="Verus contracts on extracted traversal::codegen_edges / only_inner_type_edges / all_edges",
+        text="Deductive proof of the per-edge decision of the allowlist traversal: every edge whose target is a type is followed iff types are generated (vars, methods, constructors, destructors likewise), no-recursive mode follows exactly inner-type edges. Closure/minimality over real graphs are not decided.",
+        note="Narrow. Trusted: Verus/Z3; uninterpreted CodegenConfig reads; type-edge table from the Trace impls. Unverified: root selection, ItemTraversal, Trace impls, regex anchoring, textual identity.",
+        ref="DESIGN.md §3 C09"),
     "C10": dict(
         technique="Verus contracts on extracted helpers::blob / Layout::known_type_for_size / for_size_internal (shared with C02)",
         text="Deductive proof that the opaque blob emitted for any layout libclang can report (size multiple of alignment, alignment 0 or a power of two) has exactly that size and alignment, on the ffi-safe and the padding path, including len==1 and align>4. Only the opaque-blob half of C10.",
@@ -46,11 +71,6 @@ NOT_APPLICABLE = {
 }
 
 PENDING = {
-    "C04": "claimed narrowly in DESIGN.md; check not built yet in this commit",
-    "C05": "claimed in DESIGN.md; check not built yet in this commit",
-    "C07": "claimed narrowly in DESIGN.md; check not built yet in this commit",
-    "C08": "claimed in DESIGN.md; check not built yet in this commit",
-    "C09": "claimed narrowly in DESIGN.md; check not built yet in this commit",
 }
 
 
